@@ -259,3 +259,25 @@ def extreme_update(n, which):
             if (which == "min" and op in ("<", "<=")) or (which == "max" and op in (">", ">=")):
                 return a[1], a[2]
     return None
+
+
+def field_delta(n, field):
+    """('+'|'-', amount expr or 1) if n changes this->field by an amount: ++f, f++, --f, f += e, f -= e, f = f + e,
+    f = e + f, f = f - e"""
+    if n is None:
+        return None
+    u = unop(n, ("++", "--"))
+    if u and this_field(u[1]) == field:
+        return ("+" if u[0] == "++" else "-"), 1
+    b = binop(n, ("+=", "-=")) if n["k"] in ("CompoundAssignOperator", "CXXOperatorCallExpr") else None
+    if b and this_field(b[1]) == field:
+        return ("+" if b[0] == "+=" else "-"), b[2]
+    b = binop(n, ("=",)) if n["k"] in ("BinaryOperator", "CXXOperatorCallExpr") else None
+    if b and this_field(b[1]) == field:
+        r = binop(strip_conv(b[2]), ("+", "-"))
+        if r:
+            if this_field(r[1]) == field:
+                return r[0], r[2]
+            if r[0] == "+" and this_field(r[2]) == field:
+                return "+", r[1]
+    return None
